@@ -273,7 +273,7 @@ def _value_evidence(repo: Repo, fi: FuncInfo, pname: str, depth=0) -> Set[str]:
             last = name.split(".")[-1]
             arg_is = [isinstance(a, ast.Name) and a.id == pname for a in n.args]
             if any(arg_is):
-                if last in ("int", "float", "unpack") and name in ("int", "float") or name.endswith("_bitfield.unpack"):
+                if name in ("int", "float", "divmod", "round", "abs") or name.endswith("_bitfield.unpack"):
                     out.add("int")
                 elif last in ("len", "frombuffer", "bytes", "bytearray", "BufferReader", "memoryview"):
                     out.add("bytes")
@@ -958,17 +958,41 @@ def _ctx_field_of_class(repo: Repo, ci: ClassInfo) -> Tuple[Optional[str], str]:
 
 
 def _field_of_fun(repo: Repo, mod: Module, fun: Optional[ast.AST]) -> Optional[str]:
-    """`lambda ctx: ctx.X` / `lambda ctx: ctx["X"]` -> X (None for anything else, e.g. ctx._root...)."""
-    if isinstance(fun, ast.Lambda) and len(fun.args.args) == 1:
-        p = fun.args.args[0].arg
-        b = fun.body
-        if isinstance(b, ast.Attribute) and isinstance(b.value, ast.Name) and b.value.id == p and not b.attr.startswith("_"):
-            return b.attr
-        if isinstance(b, ast.Subscript) and isinstance(b.value, ast.Name) and b.value.id == p \
-                and isinstance(b.slice, ast.Constant) and isinstance(b.slice.value, str):
-            return b.slice.value
-    return None
+    """The one sibling field a selector lambda reads: `lambda ctx: ctx.X`, `lambda ctx: ctx["X"]`, or any expression
+    over exactly one such field (`E[ctx.X] if isinstance(ctx.X, str) else ctx.X`).  None for anything else (several
+    fields, ctx._root..., the bare ctx passed on)."""
+    if not (isinstance(fun, ast.Lambda) and len(fun.args.args) == 1):
+        return None
+    p = fun.args.args[0].arg
+    fields = set()
+    other = False
+    for n in ast.walk(fun.body):
+        if isinstance(n, ast.Attribute) and isinstance(n.value, ast.Name) and n.value.id == p:
+            if n.attr.startswith("_"):
+                other = True
+            else:
+                fields.add(n.attr)
+        elif isinstance(n, ast.Subscript) and isinstance(n.value, ast.Name) and n.value.id == p:
+            if isinstance(n.slice, ast.Constant) and isinstance(n.slice.value, str):
+                fields.add(n.slice.value)
+            else:
+                other = True
+        elif isinstance(n, ast.Name) and n.id == p and not isinstance(parent_of(n, fun.body), (ast.Attribute, ast.Subscript)):
+            other = True
+    if other or len(fields) != 1:
+        return None
+    return next(iter(fields))
 
+
+def parent_of(node: ast.AST, root: ast.AST) -> Optional[ast.AST]:
+    pr = parent(node)
+    if pr is not None:
+        return pr
+    for n in ast.walk(root):
+        for ch in ast.iter_child_nodes(n):
+            if ch is node:
+                return n
+    return None
 
 
 _VARIABLE_SPECS = ("CStr", "Str", "ByteArray", "BytesGreedy", "BytesTerminated", "Collection", "TypedByteArray",
